@@ -21,7 +21,7 @@ def _num(x):
         return "nan"
     if x in (float("inf"), float("-inf")):
         return str(x)
-    return float(format(x, ".11g")) + 0.0  # (+ 0.0 turns -0.0 into 0.0: the sign of zero is a last-bit difference)
+    return float(format(x, ".11g"))
 
 
 def canon(o):
@@ -112,6 +112,9 @@ def run_scenario(scn):
         return digest({"q": res.q_values, "episode_rewards": res.event_listener_results.episode_rewards})
     if comp in ("bpi", "ga", "pomdp_rollout"):
         pomdp, view = build_pomdp(scn["pomdp"])
+        if comp != "pomdp_rollout" and scn.get("seed_kind") in ("int64", "uint32", "int32"):
+            # a seed taken from a numpy array / SeedSequence.generate_state is a numpy integer
+            seed = getattr(np, scn["seed_kind"])(seed)
     if comp == "bpi":
         from msdm.algorithms.fscboundedpolicyiteration import FSCBoundedPolicyIteration
         res = FSCBoundedPolicyIteration(controller_state_count=P.get("nodes", 2), iterations=P.get("iterations", 2), seed=seed).train_on(pomdp)
